@@ -33,6 +33,11 @@ Families of cases
          (strings, None, lists of them), poll with explicit label(s)
   out    Out / ReplaceOut / OffsetOut / LocalOut / XOut channel arrays given
          as plain lists and as ChannelLists (also nested)
+  edit   a ChannelList edited in place with plain list operations (item /
+         slice assignment, append, extend, insert, del, pop, reverse, clear)
+         and only then used in constructor / operand / receiver / method
+         argument / output-array position: the law is applied to the content
+         at the time of the call
 """
 
 import ast
@@ -74,6 +79,14 @@ SHAPES = {
     'lt': lambda a: ['l', ['t', a[0], a[1]], a[2]],      # tuple inside a list
     'ks': lambda a: ['k', a[0]],                         # ChannelList(value)
     'kt': lambda a: ['k', ['t', a[0], a[1]]],            # ChannelList(tuple)
+    # --- channel lists edited in place before use (family 'edit'); the spec
+    # is the FINAL content, the edit that produced it is case['edit']
+    'e2': lambda a: ['e', a[0], a[1]],
+    'e3': lambda a: ['e', a[0], a[1], a[2]],
+    'e21': lambda a: ['e', ['l', a[0], a[1]], a[2]],
+    'le21': lambda a: ['l', ['e', a[0], a[1]], a[2]],    # edited CL in a list
+    'ce21': lambda a: ['c', ['e', a[0], a[1]], a[2]],    # ... in a fresh CL
+    'ec21': lambda a: ['e', ['c', a[0], a[1]], a[2]],    # edited, holds a CL
 }
 CTOR_SHAPES = ['s', 't', 'l1', 'l2', 'l3', 'n21', 'n12', 'r12', 'c2', 'o']
 # shapes of family 'ctorx' (none of them is in CTOR_SHAPES)
@@ -343,6 +356,37 @@ def make_atoms(table):
     return out
 
 
+# In-place edits of a ChannelList with the ordinary list operations.  Source
+# text (one definition for the run and for the standalone reproducer): `v` is
+# the list of final values (len >= 2), J a value that must NOT survive.
+EDIT_JUNK = 999.25
+EDIT_SRC = {
+    'setitem': 'cl = ChannelList([v[0], J] + v[2:]); cl[1] = v[1]',
+    'append': 'cl = ChannelList(v[:-1]); cl.append(v[-1])',
+    'extend': 'cl = ChannelList(v[:1]); cl.extend(v[1:])',
+    'fill': 'cl = ChannelList(); cl.extend(v)',
+    'fill0': 'cl = ChannelList([])\nfor x in v: cl.append(x)',
+    'insert': 'cl = ChannelList(v[:1] + v[2:]); cl.insert(1, v[1])',
+    'del': 'cl = ChannelList(v[:1] + [J] + v[1:]); del cl[1]',
+    'slice': 'cl = ChannelList([v[0], J, J]); cl[1:] = v[1:]',
+    'pop': 'cl = ChannelList(v + [J]); cl.pop()',
+    'reverse': 'cl = ChannelList(v[::-1]); cl.reverse()',
+    'clear': 'cl = ChannelList([J, J]); cl.clear(); cl.extend(v)',
+}
+EDITS = list(EDIT_SRC)
+_EDIT = None          # edit of the case being run (set by check_case)
+_EDIT_FN = {}
+
+
+def build_edited(vals, edit):
+    from sc3.synth.ugen import ChannelList
+    if edit not in _EDIT_FN:
+        _EDIT_FN[edit] = compile(EDIT_SRC[edit], f'<edit {edit}>', 'exec')
+    env = {'ChannelList': ChannelList, 'v': list(vals), 'J': EDIT_JUNK}
+    exec(_EDIT_FN[edit], env)
+    return env['cl']
+
+
 def materialise(spec, atoms):
     from sc3.synth.ugen import ChannelList
     h = spec[0]
@@ -355,6 +399,8 @@ def materialise(spec, atoms):
         return ChannelList(xs)
     if h == 'k':                  # ChannelList(<one value that is not a list>)
         return ChannelList(xs[0])
+    if h == 'e':                  # ChannelList edited in place to hold xs
+        return build_edited(xs, _EDIT)
     if h == 't':
         return tuple(xs)
     raise ValueError(spec)
@@ -676,7 +722,10 @@ def check_ctor(case):
         top = lambda atoms: call(atoms, specs)
     tree = mx.expand(specs)
     res = run_pair(table, top, tree, call)
-    dis, outcome = compare_pair('ctor-call' if via else 'ctor', res)
+    fam = 'ctor-call' if via else 'ctor'
+    if case.get('edit'):
+        fam = 'edited-' + fam
+    dis, outcome = compare_pair(fam, res)
     return dis, mx.has_expansion(specs) and outcome[0] != 'undefined', \
         outcome
 
@@ -866,6 +915,8 @@ def check_op(case):
     elif via:
         fam += '-builtins'
     fam += '[ugen]' if case['recv'] == 's' else '[chanlist]'
+    if case.get('edit'):
+        fam = 'edited-' + fam
     # Operators: the container type of *nested* results (plain list vs
     # ChannelList) is a don't-care everywhere (tests/test_multichannel.py pins
     # the plain inner list); the top-level container type stays checked.
@@ -1000,6 +1051,8 @@ def check_meth(case):
     # methods that only forward to _multichannel_perform share one mechanism
     fam = 'meth[_multichannel_perform]' if m and m['perform'] \
         else f'meth[{name}]'
+    if case.get('edit'):
+        fam = 'edited-' + fam
     dis, outcome = compare_pair(fam, res)
     if name == 'poll':
         # poll hands back its receiver (pass-through by design) instead of
@@ -1086,13 +1139,15 @@ def out_specs(case):
     bare = 'bare' in arr
     names = [arr['bare']] if bare else arr['list']
     inner = arr.get('inner', 'l')
+    edited = arr.get('edited')     # 'top' | index of the edited nested element
     chans = []
     for p, en in enumerate(names):
         counter = [0]
 
-        def conv(e):
+        def conv(e, top=False):
             if isinstance(e, list):
-                return [inner] + [conv(x) for x in e]
+                head = 'e' if top and edited == p else inner
+                return [head] + [conv(x) for x in e]
             aid = 16 + 8 * p + counter[0]
             counter[0] += 1
             table[aid] = {'z': ['num', 0], 'f': ['num', 0.0],
@@ -1100,7 +1155,7 @@ def out_specs(case):
                           'A': ['ar', float(100 + aid)],
                           'K': ['kr', float(100 + aid)]}[e]
             return ['s', aid]
-        chans.append(conv(elems[en]))
+        chans.append(conv(elems[en], True))
     return fixed, chans, bare, table
 
 
@@ -1171,6 +1226,8 @@ def check_out(case):
         ch = [materialise(s, atoms) for s in chans]
         if case['chans'].get('cont') == 'c':
             ch = ChannelList(ch)
+        elif case['chans'].get('edited') == 'top':
+            ch = build_edited(ch, _EDIT)     # the array itself was edited
         fn(*fx, ch[0] if bare else ch)
 
     calls = mx.calls(mx.expand(list(fixed) + list(chans)))
@@ -1200,6 +1257,8 @@ def check_out(case):
     a, b = got['a'], got['b']
     owner = next(k for k in cls.__mro__ if case['ctor'] in vars(k))
     tag = f"out[{owner.__name__}.{case['ctor']}]"   # the code that runs
+    if case.get('edit'):
+        tag = 'edited-' + tag
     if a[0] == 'raise':
         dis.append((f'{tag}-build-raises', want, a[1:],
                     'a channel array of zeros / signals of the right rate '
@@ -1232,6 +1291,94 @@ def check_out(case):
 # Standalone reproducer (python source that imports only sc3)
 # ---------------------------------------------------------------------------
 
+# ---------------------------------------------------------------------------
+# Family: edit (a ChannelList edited in place, then used)
+# ---------------------------------------------------------------------------
+
+EDIT_OUT_AR = [(['A', 'z'], 'top'), (['f', 'A', 'A'], 'top'),
+               (['lAz', 'A'], 'top'), (['A', 'lfAA'], 'top'),
+               (['lAz', 'A'], 0), (['A', 'lfAA'], 1), (['nAzA'], 0),
+               (['lAz', 'lfAA'], 1)]
+EDIT_OUT_KR = [(['K', 'z'], 'top'), (['z', 'K', 'K'], 'top'),
+               (['lKn', 'K'], 'top'), (['K', 'lzKK'], 'top'),
+               (['lKn', 'K'], 0), (['K', 'lzKK'], 1), (['nKzn'], 0),
+               (['lKn', 'lzKK'], 1)]
+
+
+def edit_cases(inv, modes):
+    """A ChannelList is built, edited in place with one of EDITS (plain list
+    operations) and then used: as constructor argument, as operand / receiver
+    of an operator, as receiver / argument of a convenience method, as output
+    array or nested inside one.  The law speaks about the content at the
+    time of the call."""
+    # constructors: 'e3' on every parameter; richer placements on the first
+    for c in inv['ctors']:
+        n = len(c['params'])
+        variants = []
+        for j in range(n):
+            sh = [ctor_base(c, k) for k in range(n)]
+            sh[j] = 'e3'
+            variants.append(sh)
+        for x in ('e21', 'le21', 'ce21') if n else ():
+            sh = [ctor_base(c, k) for k in range(n)]
+            sh[0] = x
+            variants.append(sh)
+        if n >= 2:
+            sh = [ctor_base(c, k) for k in range(n)]
+            sh[0], sh[1] = 'e3', 'l2'
+            variants.append(sh)
+            sh = [ctor_base(c, k) for k in range(n)]
+            sh[0], sh[1] = 'l2', 'e3'
+            variants.append(sh)
+        for sh in variants:
+            for ed in EDITS:
+                for mode in modes:
+                    yield {'t': 'ctor', 'cls': c['key'], 'ctor': c['ctor'],
+                           'args': sh, 'mode': mode, 'edit': ed}
+    # operators: edited list as right operand of a unit / of a channel list,
+    # and as receiver
+    for ed in EDITS:
+        for name in inv['binary'] + inv['reflected']:
+            for rs, os_ in [('s', 'e2'), ('s', 'e3'), ('s', 'e21'),
+                            ('s', 'le21'), ('s', 'ce21'), ('c2', 'e3'),
+                            ('e3', 's'), ('e3', 'l2'), ('e21', 'l2')]:
+                for mode in modes:
+                    yield {'t': 'op', 'name': name, 'recv': rs, 'other': os_,
+                           'mode': mode, 'edit': ed}
+        for name in inv['unary']:
+            for rs in ('e3', 'e21'):
+                yield {'t': 'op', 'name': name, 'recv': rs, 'other': None,
+                       'mode': 'u', 'edit': ed}
+    # convenience methods: edited receiver, edited first argument
+    for m in inv['methods']:
+        params = [p for p in m['params'] if p not in OPT_PARAMS]
+        n = len(params)
+        base = ['s' if params[k] in m['required'] else 'o' for k in range(n)]
+        variants = [('e3', base), ('ec21', base)]
+        if n:
+            variants.append(('e3', ['l2'] + base[1:]))
+            variants.append(('c2', ['e3'] + base[1:]))
+        for rs, sh in variants:
+            for ed in EDITS:
+                for mode in modes:
+                    yield {'t': 'meth', 'name': m['name'], 'recv': rs,
+                           'args': list(sh), 'mode': mode, 'edit': ed}
+    # output units: the array itself edited / an edited list nested in it
+    for cn, rn, nfixed in OUT_CTORS:
+        arrays = EDIT_OUT_AR if rn == 'ar' else EDIT_OUT_KR
+        buses = ['s', 'l2'] if nfixed >= 1 else [None]
+        for b in buses:
+            for names, where in arrays:
+                for inner in ('l', 'c'):
+                    arr = {'list': list(names), 'edited': where}
+                    if inner != 'l':
+                        arr['inner'] = inner
+                    for ed in EDITS:
+                        yield {'t': 'out', 'cls': cn, 'ctor': rn, 'bus': b,
+                               'xfade': 's' if nfixed == 2 else None,
+                               'chans': arr, 'edit': ed}
+
+
 def _expr(spec):
     h = spec[0]
     if h == 's':
@@ -1243,6 +1390,8 @@ def _expr(spec):
         return f'ChannelList([{inner}])'
     if h == 'k':
         return f'ChannelList({inner})'
+    if h == 'e':
+        return f'edited([{inner}])'
     return f'({inner},)' if len(spec) == 2 else f'({inner})'
 
 
@@ -1250,6 +1399,15 @@ _INPLACE_SYM = {'iadd': '+=', 'isub': '-=', 'imul': '*=', 'itruediv': '/=',
                 'ifloordiv': '//=', 'imod': '%=', 'ipow': '**=',
                 'ilshift': '<<=', 'irshift': '>>=', 'iand': '&=', 'ior': '|=',
                 'ixor': '^='}
+
+
+def _edit_src(case):
+    ed = case.get('edit')
+    if not ed:
+        return ''
+    body = textwrap.indent(EDIT_SRC[ed], '    ')
+    return (f"\ndef edited(v):     # in-place edit {ed!r}; J must not "
+            f"survive\n    J = {EDIT_JUNK!r}\n{body}\n    return cl\n")
 
 
 def standalone(case):
@@ -1326,6 +1484,8 @@ def standalone(case):
                 arr = '[' + ', '.join(ch) + ']'
                 if cont == 'c' and sp is specs:
                     arr = f'ChannelList({arr})'
+                elif case['chans'].get('edited') == 'top' and sp is specs:
+                    arr = f'edited({arr})'
             return f"{case['cls']}.{case['ctor']}({', '.join(fx + [arr])})"
     atoms = []
     for aid in sorted(table):
@@ -1353,7 +1513,7 @@ def standalone(case):
         "from sc3.synth.synthdef import SynthDef\n"
         "from sc3.synth.ugen import ChannelList\n"
         "from sc3.synth.ugens.oscillators import SinOsc\n"
-        + ''.join(i + '\n' for i in imports) + pre +
+        + ''.join(i + '\n' for i in imports) + pre + _edit_src(case) +
         f"\ndef with_lists():\n{atoms}\n"
         f"{show(specs, 'with lists:')}\n"
         f"\ndef one_call_per_combination():\n{atoms}\n"
@@ -1365,7 +1525,12 @@ CHECKS = {'ctor': check_ctor, 'tuple': check_tuple, 'op': check_op,
 
 
 def check_case(case):
-    return CHECKS[case['t']](case)
+    global _EDIT
+    _EDIT = case.get('edit')
+    try:
+        return CHECKS[case['t']](case)
+    finally:
+        _EDIT = None
 
 
 def _run_cases(cases, acc):
@@ -1413,6 +1578,8 @@ def work_list(job):
                    if i % job['slice_of'] == job['slice_ix'])
     elif fam == 'call':
         gen = call_cases(inv, job['modes'])
+    elif fam == 'edit':
+        gen = edit_cases(inv, job['modes'])
     else:
         raise ValueError(fam)
     _run_cases((c for i, c in enumerate(gen)
@@ -1441,7 +1608,7 @@ PREDICATES = {
 
 def main(ctx):
     ctx.rule = (
-        'E1: every case of seven families is executed twice inside real '
+        'E1: every case of eight families is executed twice inside real '
         'SynthDef builds (with lists / with the list-free calls of the '
         'expansion tree computed from the plain-data shapes). Distinct = '
         'literally different case (class, constructor, shape per parameter, '
@@ -1528,6 +1695,17 @@ def main(ctx):
                  bound='call: the class called like a constructor (default '
                        'rate / urate=), shapes ' + '/'.join(CALL_SHAPES)
                        + ' on every parameter')
+    emodes = ['n', 'm', 'u'] if thorough else ['m']
+    progenum.run(ctx, MODNAME, 'work_list',
+                 [{'family': 'edit', 'shard': i, 'of': NS, 'modes': emodes}
+                  for i in range(NS)],
+                 bound=f'edit: a ChannelList edited in place ({len(EDITS)} '
+                       'edits: ' + '/'.join(EDITS) + ') and then used as '
+                       'argument of every constructor (every parameter), as '
+                       'operand / receiver of every operator, as receiver / '
+                       'argument of every convenience method, as output '
+                       'array / nested in one; atom modes '
+                       + '/'.join(emodes))
     progenum.run(ctx, MODNAME, 'work_list',
                  [{'family': 'tuple', 'shard': i, 'of': 16}
                   for i in range(16)],
